@@ -15,12 +15,24 @@
                                    impl=<errors of validate (parse (ser i)) | parse:<errclass>>"
                                   (spec is printed only when wf=1)
     imgmuts <p:v,…> <recipe…> `muts` on the serialisation of a grammar image → "ok <characters>"
+    paths <hex>               every volume / file a path of `locTree` reaches (FianoModel/Uefi/ValidateLoc.lean):
+                                → "ok <path@offset:kind:length:regular, comma separated | ->"  |  "parse:err"
+                                  path = numbers joined by ".", kind v (volume header, HeaderLen) | f (file, size)
+    imgpaths <recipe…>        `paths` on the serialisation of a grammar image
+    why <hex> <p:v,…>         what theorem c09_alter_detected_image says about each alteration (`verdictAt`):
+                                → "ok <one character per pair>"   T the theorem applies (detection is proved;
+                                  `verdictAt_T_detected`) | n no node protects the byte | = value unchanged |
+                                  s signature byte of a top-level volume | z `_FVH` appears at an earlier scan
+                                  probe | f free-space marker | g flash signature changes | r irregular volume
+                                  on the path | d the unaltered image does not parse and validate cleanly
+    imgwhy <p:v,…> <recipe…>  `why` on the serialisation of a grammar image
   <errclass> ∈ err | panic | fatal | hang | fuel.   Anything else → "bad-op".
 -/
 import Driver.Common
 import FianoModel.Uefi.Dump
 import FianoModel.Uefi.Recipe
 import FianoModel.Uefi.ValidateSpec
+import FianoModel.Uefi.ValidateLoc
 
 open Fiano Fiano.Uefi Driver
 
@@ -89,6 +101,21 @@ def handle : List String → String
   | "imgmuts" :: ms :: rest =>
     match parseMuts ms, Recipe.parseImg (" ".intercalate rest) with
     | some l, some i => mutsLine (Spec.ser i) l
+    | _, _ => "bad-op"
+  | ["paths", img] => withBytes img fun b => Fiano.Uefi.C09.pathsLine b
+  | "imgpaths" :: rest =>
+    match Recipe.parseImg (" ".intercalate rest) with
+    | some i => Fiano.Uefi.C09.pathsLine (Spec.ser i)
+    | none => "bad-op"
+  | ["why", img, ms] => withBytes img fun b =>
+    match parseMuts ms with
+    | some l => if l.any (fun m => m.1 ≥ b.length) then "bad-op" else Fiano.Uefi.C09.whyLine b l
+    | none => "bad-op"
+  | "imgwhy" :: ms :: rest =>
+    match parseMuts ms, Recipe.parseImg (" ".intercalate rest) with
+    | some l, some i =>
+      let b := Spec.ser i
+      if l.any (fun m => m.1 ≥ b.length) then "bad-op" else Fiano.Uefi.C09.whyLine b l
     | _, _ => "bad-op"
   | _ => "bad-op"
 
